@@ -9,6 +9,42 @@ import (
 	"github.com/theory/sqljson/path/ast"
 )
 
+// integerMathOverflows returns true when the exact result of applying op to
+// lhs and rhs does not fit in an int64.
+func integerMathOverflows(lhs, rhs int64, op ast.BinaryOperator) bool {
+	switch op {
+	case ast.BinaryAdd:
+		sum := lhs + rhs
+		return (sum > lhs) != (rhs > 0)
+	case ast.BinarySub:
+		diff := lhs - rhs
+		return (diff < lhs) != (rhs > 0)
+	case ast.BinaryMul:
+		if lhs == 0 || rhs == 0 {
+			return false
+		}
+		if (lhs == -1 && rhs == math.MinInt64) || (rhs == -1 && lhs == math.MinInt64) {
+			return true
+		}
+		return (lhs*rhs)/rhs != lhs
+	case ast.BinaryDiv:
+		return lhs == math.MinInt64 && rhs == -1
+	default:
+		return false
+	}
+}
+
+// executeCheckedIntegerMath applies op to lhs and rhs with
+// [executeIntegerMath] when the exact result fits in an int64, and falls back
+// on [executeFloatMath] when it does not, so that an out-of-range result is
+// never wrapped around into a wrong integer.
+func executeCheckedIntegerMath(lhs, rhs int64, op ast.BinaryOperator) (any, error) {
+	if integerMathOverflows(lhs, rhs, op) {
+		return executeFloatMath(float64(lhs), float64(rhs), op)
+	}
+	return executeIntegerMath(lhs, rhs, op)
+}
+
 // executeIntegerMath compares lhs to rhs using op and returns the resulting
 // value. op must be a binary math operator. Returns an error for an attempt
 // to divide by zero.
@@ -193,12 +229,12 @@ func execMathOp(left, right any, op ast.BinaryOperator) (any, error) {
 	case int64:
 		switch right := right.(type) {
 		case int64:
-			return executeIntegerMath(left, right, op)
+			return executeCheckedIntegerMath(left, right, op)
 		case float64:
 			return executeFloatMath(float64(left), right, op)
 		case json.Number:
 			if right, err := right.Int64(); err == nil {
-				return executeIntegerMath(left, right, op)
+				return executeCheckedIntegerMath(left, right, op)
 			}
 			if right, err := right.Float64(); err == nil {
 				return executeFloatMath(float64(left), right, op)
